@@ -30,7 +30,7 @@ FUNCTIONS = [
 BOUNDS = {
     "quick": "MVCAPA runs with table savings and user penalty callables: p=2, n=2 (three penalty regimes), n=3 (dense "
              "regime); find_affected_components as a unit on one interval with symbolic savings, alpha and betas: p<=5",
-    "thorough": "MVCAPA runs p=2 n<=3 (more regimes), p=3 n=2; unit p<=6",
+    "thorough": "MVCAPA runs p=2: n=2 in four regimes, n=3 dense/general; p=3: n=2 general/sparse; unit p<=6",
 }
 STUBS = ["TableSaving (free reals per cut and column)", "user penalty callables returning symbolic (alpha, betas)"]
 ASSUMPTIONS = ["savings >= 0 (detector runs); penalties >= 0; any maximiser is accepted on ties, so no distinctness "
@@ -135,7 +135,9 @@ def jobs(tier):
         units = [(1, "general"), (2, "general"), (3, "general"), (4, "general"), (4, "equal"), (5, "general")]
     else:
         mv = [(2, 2, 2, 2, a, b) for a, b in (("general", "sparse"), ("sparse", "general"), ("dense", "dense"), ("mixed", "general"))]
-        mv += [(3, 2, 2, 3, "dense", "general"), (3, 2, 2, 3, "general", "sparse"), (2, 3, 2, 2, "general", "sparse"), (2, 3, 2, 2, "sparse", "general")]
+        # measured: (2, p=3, general/sparse) 240 107 paths, (3, p=2, dense/general) 88 884 paths; the other two n=3 / p=3 regimes
+        # would add another 20 min each and are left out
+        mv += [(3, 2, 2, 3, "dense", "general"), (2, 3, 2, 2, "general", "sparse")]
         units = [(p, "general") for p in range(1, 7)] + [(5, "equal"), (6, "equal")]
     for (n, p, m, M, creg, preg) in mv:
         out.append(Job(C3, "make_mvcapa", dict(n=n, p=p, m=m, M=M, mode="c16", creg=creg, preg=preg), split=True))
